@@ -53,6 +53,7 @@ class SMap:
         c.slots = [Slot(s.key, s.value, s.origin) for s in self.slots]
         c.entry_slots = self.entry_slots
         c.base_card = self.base_card
+        c.keydom = getattr(self, "keydom", None)
         return c
 
 
@@ -92,6 +93,9 @@ def find_slot(I, m: SMap, kt, create=True):
     m.entry_slots.append((kt, clone_graph({"v": v})["v"]))
     if m.card is not None:
         I.ctx.assume(z3.Implies(z3.Select(m.has, kt), m.card >= 1))
+    if getattr(m, "keydom", None) is not None:
+        lo, hi = m.keydom
+        I.ctx.assume(z3.Implies(z3.Select(m.base_has, kt), z3.And(kt >= lo, kt <= hi)))
     return s
 
 
